@@ -2796,6 +2796,12 @@ func (self *TextServerProtocol) commandHandlerPush(_ *TextServerProtocol, args [
 	if err != nil {
 		return self.stream.WriteBytes(self.parser.BuildResponse(false, "ERR Lock Error", nil))
 	}
+	select {
+	case lockCommandResult := <-self.lockWaiter:
+		// PUSH does not report the engine's answer; an answer given at once must not be left for the next command
+		self.freeCommandResult, lockCommandResult.Data = lockCommandResult, nil
+	default:
+	}
 	return self.stream.WriteBytes(self.parser.BuildResponse(true, "OK", nil))
 }
 
